@@ -34,6 +34,8 @@ pub fn method_name(m: u8) -> &'static str {
         0 => "none",
         0x02 => "zlib",
         0x10 => "bzip2",
+        0x12 => "lzma",
+        0x20 => "sparse",
         _ => "other",
     }
 }
@@ -46,7 +48,8 @@ pub struct ArcCfg {
     pub shift: u16,
     pub method: u8,
     pub enc: bool,
-    /// 0 none, 1 CRC32 (+ sector checksums), 2 CRC32+MD5+FILETIME (+ sector checksums)
+    /// 0 none, 1 CRC32 (+ sector checksums), 2 CRC32+MD5+FILETIME (+ sector checksums),
+    /// 3 sector checksums WITHOUT an (attributes) file: generate_crcs(true), then AttributesOption::None set explicitly
     pub attr: u8,
     pub tblcomp: bool,
     /// 0 unsigned, 1 signed (signature file between the user files), 2 signed with the signature file straddling the 64 KiB digest unit
@@ -55,21 +58,30 @@ pub struct ArcCfg {
     /// data the MPQ is embedded behind. Every offset stored in the archive is relative to the archive start, so the
     /// archive bytes themselves are those of the prefix-free build.
     pub prefix: u32,
+    /// encrypted with the position-adjusted key (use_fix_key = true); only meaningful with `enc`
+    pub fixkey: bool,
+    /// codec of the compressed HET/BET tables (ArchiveBuilder::table_compression); 0 = the builder's default is left alone
+    pub tblcodec: u8,
 }
 
 impl ArcCfg {
     pub fn enc_name(&self) -> &'static str {
-        if self.enc { "encrypted" } else { "plain" }
+        match (self.enc, self.fixkey) {
+            (false, _) => "plain",
+            (true, false) => "encrypted",
+            (true, true) => "encrypted-fixkey",
+        }
     }
     pub fn label(&self) -> String {
         let l = format!("v{}|s{}|{}|{}|a{}|t{}|g{}", self.version, self.shift, method_name(self.method), self.enc_name(), self.attr, self.tblcomp as u8, self.signed);
-        if self.prefix == 0 { l } else { format!("{l}|p{}", self.prefix) }
+        let l = if self.prefix == 0 { l } else { format!("{l}|p{}", self.prefix) };
+        if self.tblcodec == 0 { l } else { format!("{l}|tc-{}", method_name(self.tblcodec)) }
     }
     pub fn offset_name(&self) -> &'static str {
         if self.prefix == 0 { "offset0" } else { "offset>0" }
     }
     pub fn to_json(&self) -> Value {
-        json!({"version": self.version, "sector_shift": self.shift, "method": method_name(self.method), "enc": self.enc_name(), "attributes": self.attr, "compress_tables": self.tblcomp, "signed": self.signed, "archive_offset": self.prefix})
+        json!({"version": self.version, "sector_shift": self.shift, "method": method_name(self.method), "enc": self.enc_name(), "attributes": self.attr, "compress_tables": self.tblcomp, "signed": self.signed, "archive_offset": self.prefix, "table_codec": if self.tblcodec == 0 { "default" } else { method_name(self.tblcodec) }})
     }
     pub fn sector(&self) -> usize {
         512usize << self.shift
@@ -167,6 +179,18 @@ pub fn build(cfg: &ArcCfg, seed: u64, path: &Path) -> Result<Built, String> {
         // the 9-sector file ends in incompressible bytes: with a codec selected it holds compressed and raw sectors
         specs.push(("nine.bin".into(), "9-sector", mixed_content(&mut rng, l9, 35), cfg.method, cfg.enc));
     }
+    if cfg.method == 0x20 {
+        // the sparse codec only shrinks runs of zeros: give every file that asks for it some
+        for s in specs.iter_mut().filter(|s| s.3 == 0x20) {
+            let n = s.2.len();
+            let mut o = rng.usize(30);
+            while o < n {
+                let end = (o + 40 + rng.usize(200)).min(n);
+                s.2[o..end].fill(0);
+                o = end + 20 + rng.usize(60);
+            }
+        }
+    }
     let mut attempt = 0;
     loop {
         attempt += 1;
@@ -180,13 +204,18 @@ pub fn build(cfg: &ArcCfg, seed: u64, path: &Path) -> Result<Built, String> {
         b = match cfg.attr {
             1 => b.attributes_option(AttributesOption::GenerateCrc32),
             2 => b.attributes_option(AttributesOption::GenerateFull),
+            // sector checksums asked for first (which switches the CRC32 attributes on), the attributes file then declined
+            3 => b.generate_crcs(true).attributes_option(AttributesOption::None),
             _ => b.attributes_option(AttributesOption::None),
         };
         if cfg.version >= 3 {
             b = b.compress_tables(cfg.tblcomp);
+            if cfg.tblcodec != 0 {
+                b = b.table_compression(cfg.tblcodec);
+            }
         }
         for (name, _, data, method, enc) in &specs {
-            b = if *enc { b.add_file_data_with_encryption(data.clone(), name, *method, false, 0) } else { b.add_file_data_with_options(data.clone(), name, *method, false, 0) };
+            b = if *enc { b.add_file_data_with_encryption(data.clone(), name, *method, cfg.fixkey, 0) } else { b.add_file_data_with_options(data.clone(), name, *method, false, 0) };
         }
         b.build(path).map_err(|e| format!("build failed: {e}"))?;
         if cfg.signed == 2 && attempt < 4 {
@@ -238,8 +267,10 @@ pub fn build(cfg: &ArcCfg, seed: u64, path: &Path) -> Result<Built, String> {
     let mut files: Vec<StoredFile> = Vec::new();
     let mut all_specs: Vec<(String, &'static str, Vec<u8>)> = specs.iter().map(|s| (s.0.clone(), s.1, s.2.clone())).collect();
     all_specs.push(("(listfile)".into(), "special", vec![]));
-    if cfg.attr != 0 {
+    if cfg.attr == 1 || cfg.attr == 2 {
         all_specs.push(("(attributes)".into(), "special", vec![]));
+    } else if a.find_file("(attributes)").map_err(|e| e.to_string())?.is_some() {
+        return Err("an (attributes) file although AttributesOption::None was set".into());
     }
     for (name, shape, data) in all_specs {
         let fi = a.find_file(&name).map_err(|e| format!("find_file {name}: {e}"))?.ok_or(format!("fresh archive lacks {name}"))?;
@@ -794,7 +825,7 @@ pub fn crc_cfgs(thorough: bool, attrs: &[u8]) -> Vec<ArcCfg> {
         for &method in &[0u8, 0x02] {
             for &enc in &[false, true] {
                 for &attr in attrs {
-                    v.push(ArcCfg { version, shift, method, enc, attr, tblcomp: false, signed: 0, prefix: 0 });
+                    v.push(ArcCfg { version, shift, method, enc, attr, tblcomp: false, signed: 0, prefix: 0, fixkey: false, tblcodec: 0 });
                 }
             }
         }
@@ -819,7 +850,7 @@ fn specs(thorough: bool) -> Vec<Spec> {
     // K3/K4 version-4 digests
     let v4: &[(bool, bool)] = if thorough { &[(false, false), (true, true), (false, true), (true, false)] } else { &[(false, false), (true, true)] };
     for &(enc, tblcomp) in v4 {
-        let cfg = ArcCfg { version: 4, shift: 0, method: 0x02, enc, attr: 1, tblcomp, signed: 0, prefix: 0 };
+        let cfg = ArcCfg { version: 4, shift: 0, method: 0x02, enc, attr: 1, tblcomp, signed: 0, prefix: 0, fixkey: false, tblcodec: 0 };
         for &region in &["v4_header", "v4_header_digest", "hash_table", "block_table", "het_bet_tables"] {
             for &ck in cks {
                 v.push(Spec { kind: "v4-digest", cfg: cfg.clone(), file: NOFILE, region, ck, n: 0 });
@@ -831,12 +862,12 @@ fn specs(thorough: bool) -> Vec<Spec> {
     }
     // K5 signed archives
     let mut sg = vec![
-        ArcCfg { version: 1, shift: 0, method: 0x02, enc: false, attr: 0, tblcomp: false, signed: 1, prefix: 0 },
-        ArcCfg { version: 1, shift: 8, method: 0, enc: false, attr: 0, tblcomp: false, signed: 2, prefix: 0 },
+        ArcCfg { version: 1, shift: 0, method: 0x02, enc: false, attr: 0, tblcomp: false, signed: 1, prefix: 0, fixkey: false, tblcodec: 0 },
+        ArcCfg { version: 1, shift: 8, method: 0, enc: false, attr: 0, tblcomp: false, signed: 2, prefix: 0, fixkey: false, tblcodec: 0 },
     ];
     if thorough {
-        sg.push(ArcCfg { version: 2, shift: 0, method: 0, enc: true, attr: 0, tblcomp: false, signed: 1, prefix: 0 });
-        sg.push(ArcCfg { version: 1, shift: 3, method: 0x02, enc: true, attr: 0, tblcomp: false, signed: 1, prefix: 0 });
+        sg.push(ArcCfg { version: 2, shift: 0, method: 0, enc: true, attr: 0, tblcomp: false, signed: 1, prefix: 0, fixkey: false, tblcodec: 0 });
+        sg.push(ArcCfg { version: 1, shift: 3, method: 0x02, enc: true, attr: 0, tblcomp: false, signed: 1, prefix: 0, fixkey: false, tblcodec: 0 });
     }
     for cfg in sg {
         for &region in &["header", "stored_files", "hash_table", "block_table", "signature", "sig_header"] {
@@ -848,13 +879,13 @@ fn specs(thorough: bool) -> Vec<Spec> {
     // K6 signature functions
     let nsig = if thorough { 600 } else { 200 };
     for n in 0..nsig {
-        v.push(Spec { kind: "sig-fn", cfg: ArcCfg { version: 0, shift: 0, method: 0, enc: false, attr: 0, tblcomp: false, signed: 0, prefix: 0 }, file: NOFILE, region: "-", ck: "bitflip", n });
+        v.push(Spec { kind: "sig-fn", cfg: ArcCfg { version: 0, shift: 0, method: 0, enc: false, attr: 0, tblcomp: false, signed: 0, prefix: 0, fixkey: false, tblcodec: 0 }, file: NOFILE, region: "-", ck: "bitflip", n });
     }
     // K7 the same kinds of metadata in archives that do not start at file offset 0 (embedded behind 512-aligned foreign
     // data): every verifier has to add the archive offset to what it reads. Appended last so that the indices above stay put.
     let v4p: &[(bool, bool, u32)] = if thorough { &[(false, false, 512), (true, true, 1536)] } else { &[(false, false, 512)] };
     for &(enc, tblcomp, prefix) in v4p {
-        let cfg = ArcCfg { version: 4, shift: 0, method: 0x02, enc, attr: 1, tblcomp, signed: 0, prefix };
+        let cfg = ArcCfg { version: 4, shift: 0, method: 0x02, enc, attr: 1, tblcomp, signed: 0, prefix, fixkey: false, tblcodec: 0 };
         for &region in &["v4_header", "v4_header_digest", "hash_table", "block_table", "het_bet_tables"] {
             for &ck in cks {
                 v.push(Spec { kind: "v4-digest", cfg: cfg.clone(), file: NOFILE, region, ck, n: 0 });
@@ -874,7 +905,7 @@ fn specs(thorough: bool) -> Vec<Spec> {
         }
         v.push(Spec { kind: "sector-crc-paired", cfg: cfg.clone(), file: 0, region: "unit_crc=0+file_data", ck: "x01", n: 0 });
     }
-    let sgp = ArcCfg { version: 1, shift: 0, method: 0x02, enc: false, attr: 0, tblcomp: false, signed: 1, prefix: 1024 };
+    let sgp = ArcCfg { version: 1, shift: 0, method: 0x02, enc: false, attr: 0, tblcomp: false, signed: 1, prefix: 1024, fixkey: false, tblcodec: 0 };
     let sregs: &[&'static str] = if thorough { &["header", "stored_files", "hash_table", "block_table", "signature", "sig_header"] } else { &["header", "signature"] };
     for &region in sregs {
         for &ck in cks {
@@ -884,7 +915,7 @@ fn specs(thorough: bool) -> Vec<Spec> {
     // K8 the digest block in a version-3 archive with the extended header (version code 43 = "built as 4, labelled 3")
     let v43: &[bool] = if thorough { &[false, true] } else { &[false] };
     for &enc in v43 {
-        let cfg = ArcCfg { version: 43, shift: 0, method: 0x02, enc, attr: 1, tblcomp: false, signed: 0, prefix: 0 };
+        let cfg = ArcCfg { version: 43, shift: 0, method: 0x02, enc, attr: 1, tblcomp: false, signed: 0, prefix: 0, fixkey: false, tblcodec: 0 };
         for &region in &["v4_header", "v4_header_digest", "hash_table", "block_table"] {
             for &ck in cks {
                 v.push(Spec { kind: "v4-digest", cfg: cfg.clone(), file: NOFILE, region, ck, n: 0 });
@@ -894,13 +925,73 @@ fn specs(thorough: bool) -> Vec<Spec> {
             v.push(Spec { kind: "v4-digest-paired", cfg: cfg.clone(), file: NOFILE, region, ck: "x01", n: 0 });
         }
     }
+    // K9 codecs and key derivations beyond none / zlib / the plain key (item: "codec and key axes held fixed")
+    for cfg in codec_cfgs(thorough, 1) {
+        push_crc_specs(&mut v, &cfg, thorough, cks);
+    }
+    // K10 sector checksums without an (attributes) file: generate_crcs(true) + AttributesOption::None
+    let k10: &[(u8, u16, u8, bool)] = if thorough { &[(1, 0, 0x02, false), (2, 3, 0, true), (4, 0, 0x02, true)] } else { &[(1, 0, 0x02, false)] };
+    for &(version, shift, method, enc) in k10 {
+        let cfg = ArcCfg { version, shift, method, enc, attr: 3, tblcomp: false, signed: 0, prefix: 0, fixkey: false, tblcodec: 0 };
+        push_crc_specs(&mut v, &cfg, thorough, cks);
+    }
+    // K11 version-4 digests over HET/BET tables compressed with a codec other than the default (table_compression)
+    let k11: &[(u8, bool)] = if thorough { &[(0x10, false), (0x12, true)] } else { &[(0x10, false)] };
+    for &(tblcodec, enc) in k11 {
+        let cfg = ArcCfg { version: 4, shift: 0, method: 0x02, enc, attr: 1, tblcomp: true, signed: 0, prefix: 0, fixkey: false, tblcodec };
+        let regs: &[&'static str] = if thorough { &["v4_header", "v4_header_digest", "hash_table", "block_table", "het_bet_tables"] } else { &["v4_header_digest", "het_bet_tables"] };
+        for &region in regs {
+            for &ck in cks {
+                v.push(Spec { kind: "v4-digest", cfg: cfg.clone(), file: NOFILE, region, ck, n: 0 });
+            }
+        }
+        if thorough {
+            for &region in &["hash_table", "block_table"] {
+                v.push(Spec { kind: "v4-digest-paired", cfg: cfg.clone(), file: NOFILE, region, ck: "x01", n: 0 });
+            }
+        }
+    }
     v
+}
+
+/// The sector / unit checksum cases of one configuration. thorough: every file shape x every region x every corruption kind;
+/// quick: the single-unit file (data, checksum, checksum zeroed + data) and the data of the 9-sector file.
+fn push_crc_specs(v: &mut Vec<Spec>, cfg: &ArcCfg, thorough: bool, cks: &[&'static str]) {
+    for file in 0..3 {
+        for &region in file_regions(file) {
+            if !thorough && !(file == 0 || (file == 2 && region == "file_data")) {
+                continue;
+            }
+            for &ck in cks {
+                v.push(Spec { kind: "sector-crc", cfg: cfg.clone(), file, region, ck, n: 0 });
+            }
+        }
+    }
+    v.push(Spec { kind: "sector-crc-paired", cfg: cfg.clone(), file: 0, region: "unit_crc=0+file_data", ck: "x01", n: 0 });
+}
+
+/// K9: bzip2 / LZMA / sparse sectors and fix-key encryption under checksums (PKWare is left out: its decoder is a known
+/// finding of C03/C05). (version, sector shift, codec, encrypted, fix key)
+pub fn codec_cfgs(thorough: bool, attr: u8) -> Vec<ArcCfg> {
+    let all: &[(u8, u16, u8, bool, bool)] = &[
+        (1, 0, 0x10, false, false),
+        (2, 3, 0x12, true, true),
+        (1, 0, 0x20, false, false),
+        (2, 0, 0x02, true, true),
+        (2, 3, 0x10, true, false),
+        (1, 0, 0x12, false, false),
+        (4, 0, 0x20, true, true),
+        (1, 3, 0, true, true),
+        (3, 0, 0x10, true, true),
+        (4, 0, 0x12, false, false),
+    ];
+    all[..if thorough { all.len() } else { 4 }].iter().map(|&(version, shift, method, enc, fixkey)| ArcCfg { version, shift, method, enc, attr, tblcomp: false, signed: 0, prefix: 0, fixkey, tblcodec: 0 }).collect()
 }
 
 /// Archives with checksums / attributes placed behind a prefix (K7): one configuration in quick, three in thorough.
 pub fn prefixed_crc_cfgs(thorough: bool, attr: u8) -> Vec<ArcCfg> {
     let all: &[(u8, u16, u8, bool, u32)] = &[(1, 0, 0x02, false, 1024), (2, 3, 0, true, 512), (4, 0, 0x02, true, 2048)];
-    all[..if thorough { 3 } else { 1 }].iter().map(|&(version, shift, method, enc, prefix)| ArcCfg { version, shift, method, enc, attr, tblcomp: false, signed: 0, prefix }).collect()
+    all[..if thorough { 3 } else { 1 }].iter().map(|&(version, shift, method, enc, prefix)| ArcCfg { version, shift, method, enc, attr, tblcomp: false, signed: 0, prefix, fixkey: false, tblcodec: 0 }).collect()
 }
 
 /// Trigger predicate appended to signatures of archives that do not start at file offset 0 (nothing for the ordinary layout).
@@ -1008,7 +1099,8 @@ fn crc_case(c: &mut Case, sp: &Spec, b: &Built, stride: usize, phase: usize) {
     if !c.viol.is_empty() {
         return;
     }
-    let f = &b.files.iter().filter(|f| f.shape != "special").nth(sp.file).cloned().unwrap();
+    // (the user files only: the zero-length file that archives with attributes also hold is not one of the three shapes)
+    let f = &b.user_files().nth(sp.file).map(|x| x.1.clone()).unwrap();
     let fi = b.files.iter().position(|x| x.name == f.name);
     let (rkind, extra): (&str, Vec<(usize, u8)>) = if sp.kind == "sector-crc-paired" {
         // the stored unit checksum is zeroed ("no checksum" in other implementations) AND a data byte is altered
@@ -1105,17 +1197,84 @@ fn signed_case(c: &mut Case, sp: &Spec, b: &Built, stride: usize, phase: usize) 
     }
     // the same signed archive inside a longer file (padding to a block multiple / foreign data behind the archive): the archive,
     // whose extent the header declares, is unmodified and must verify
-    for (tag, extra) in [("short-tail", 100usize), ("padded-to-4096", (4096 - b.bytes.len() % 4096) % 4096 + 4096)] {
+    // tails 3..5 begin with "NGIS" + 256 bytes: by the format that is a strong-signature block attached to the archive. The
+    // archive proper is unmodified and weakly signed, the attached block is not a signature anybody made. Acceptable answers:
+    // WeakValid (the block is foreign bytes, the convention of the two tails above) or a *refusal* in the name of the strong
+    // signature (StrongInvalid / StrongNoKey: the file claims a strong signature that does not verify - attaching one is a
+    // change of the signature metadata). Not acceptable: StrongValid (a forged signature accepted), WeakInvalid / None / an
+    // error (the weak verifier misjudging the intact archive because of what follows it).
+    let ngis = |n: usize, zero: bool| -> Vec<u8> {
+        let mut t = b"NGIS".to_vec();
+        t.extend((0..n).map(|i| if zero { 0u8 } else { (i * 31 % 251) as u8 | 1 }));
+        t
+    };
+    let filler = |n: usize| -> Vec<u8> { (0..n).map(|i| (i * 29 % 253) as u8 | 1).collect() };
+    let tails: Vec<(&str, Vec<u8>, bool)> = vec![
+        ("short-tail", filler(100), false),
+        ("padded-to-4096", filler((4096 - b.bytes.len() % 4096) % 4096 + 4096), false),
+        ("NGIS+256", ngis(256, false), true),
+        ("NGIS+256+more", ngis(256 + 333, false), true),
+        ("NGIS+256-zero-bytes", ngis(256, true), true),
+    ];
+    for (tag, tail, strong_claim) in tails {
+        let extra = tail.len();
         let tp = b.path.with_extension(format!("{tag}.mpq"));
         let mut longer = b.bytes.clone();
-        longer.extend((0..extra).map(|i| (i * 29 % 253) as u8 | 1));
+        longer.extend_from_slice(&tail);
         if std::fs::write(&tp, &longer).is_err() {
             continue;
         }
         c.count("baseline_verifications", 1);
         c.count("signed_archives_followed_by_foreign_bytes", 1);
         let r = trap(|| Archive::open(&tp).and_then(|mut a| a.verify_signature()));
+        if strong_claim {
+            c.count("signed_archives_followed_by_NGIS_block", 1);
+            let name = match &r {
+                Ok(Ok(s)) => format!("{s:?}"),
+                Ok(Err(_)) => "Err".to_string(),
+                Err(_) => "panic".to_string(),
+            };
+            c.count(&format!("NGIS_block_answer|{tag}|{name}"), 1);
+            if matches!(r, Ok(Ok(SignatureStatus::StrongValid | SignatureStatus::StrongInvalid | SignatureStatus::StrongNoKey))) {
+                c.count("strong_signature_arm_reached", 1);
+            }
+            // the same file with one signed byte of the archive altered: nothing may call it valid
+            if let Some(sr) = b.regions.iter().find(|r| r.kind == "stored_files") {
+                let (s0, e0) = sr.ranges[0];
+                let at = s0 + (e0 - s0) / 2;
+                longer[at] ^= 0x01;
+                if std::fs::write(&tp, &longer).is_ok() {
+                    c.count("tampered_archives_with_NGIS_block", 1);
+                    let r2 = trap(|| Archive::open(&tp).and_then(|mut a| a.verify_signature()));
+                    if let Ok(Ok(s2 @ (SignatureStatus::WeakValid | SignatureStatus::StrongValid))) = r2 {
+                        c.violate(format!("still-verifies|weak-signature|stored_files|{placement}|{method}|{enc}|NGIS-block-behind-archive{}", off_sfx(&sp.cfg)),
+                                  format!("a signed archive with one signed byte altered and a strong-signature block ({tag}) behind it: verify_signature() = {s2:?}"), json!({"archive_len": b.bytes.len(), "altered_offset": at, "tail": tag}));
+                    }
+                }
+                longer[at] ^= 0x01;
+            }
+        }
         let _ = std::fs::remove_file(&tp);
+        if strong_claim {
+            match r {
+                Ok(Ok(SignatureStatus::WeakValid | SignatureStatus::StrongInvalid | SignatureStatus::StrongNoKey)) => {}
+                Ok(Ok(SignatureStatus::StrongValid)) => {
+                    c.violate(format!("forged-accepted|strong-signature|verify_signature|NGIS-block-not-a-signature{}", off_sfx(&sp.cfg)), format!("verify_signature() answers StrongValid for a block of arbitrary bytes behind the archive ({tag})"), json!({"archive_len": b.bytes.len(), "tail": tag}));
+                    return;
+                }
+                other => {
+                    let s = match other {
+                        Ok(Ok(s)) => format!("{s:?}"),
+                        Ok(Err(e)) => format!("Err({e})"),
+                        Err(p) => p.sig(),
+                    };
+                    c.violate(format!("intact-fails|weak-signature|verify_signature|{placement}|{method}|{enc}|NGIS-block-behind-archive{}", off_sfx(&sp.cfg)),
+                              format!("a signed, unmodified archive followed by {tag}: verify_signature() = {s} (neither the weak signature confirmed nor the attached block refused as a strong signature)"), json!({"archive_len": b.bytes.len(), "tail": tag}));
+                    return;
+                }
+            }
+            continue;
+        }
         match r {
             Ok(Ok(SignatureStatus::WeakValid)) => {}
             other => {
